@@ -312,6 +312,14 @@ func (ft *FT) guardedField(fa *ssa.FieldAddr, write bool, pos token.Pos, guard T
 	}
 	fname := stt.Field(fa.Field).Name()
 	for _, m := range ft.eng.cons.Monitors {
+		// fields of another struct protected by this monitor's lock (e.g. cache entries guarded by the cache's mutex)
+		if n.Obj().Pkg() != nil && pkgKey(n.Obj().Pkg()) == m.PkgName {
+			for _, a := range m.Also {
+				if a == n.Obj().Name()+"."+fname {
+					ft.guardedExternal(m, fa, write, pos, guard)
+				}
+			}
+		}
 		if m.Type != n.Obj().Name() || n.Obj().Pkg() == nil || pkgKey(n.Obj().Pkg()) != m.PkgName {
 			continue
 		}
@@ -368,4 +376,51 @@ func (ft *FT) guardedMap(m ssa.Value, write bool, pos token.Pos, guard Term) {
 	if fa, ok := u.X.(*ssa.FieldAddr); ok {
 		ft.guardedField(fa, write, pos, guard)
 	}
+}
+
+// guardedExternal: access to a field of another object that is protected by monitor m's lock; the
+// lock owner is the parameter (or receiver) of the monitor's struct type.
+func (ft *FT) guardedExternal(m *Monitor, fa *ssa.FieldAddr, write bool, pos token.Pos, guard Term) {
+	if _, isLoc := ft.locs[fa.X]; isLoc {
+		return
+	}
+	var owner ssa.Value
+	var ownerT types.Type
+	cands := []ssa.Value{}
+	for _, p := range ft.fn.Params {
+		cands = append(cands, p)
+	}
+	for _, c := range cands {
+		if n, ok := deref(c.Type()).(*types.Named); ok && n.Obj().Name() == m.Type && n.Obj().Pkg() != nil && pkgKey(n.Obj().Pkg()) == m.PkgName {
+			if _, isPtr := c.Type().Underlying().(*types.Pointer); isPtr {
+				owner, ownerT = c, deref(c.Type())
+			}
+		}
+	}
+	if owner == nil {
+		ft.note("access to " + m.Type + "-guarded field outside a method of " + m.Type + " (lock owner unknown, not checked)")
+		return
+	}
+	stt := ownerT.Underlying().(*types.Struct)
+	var muField *types.Var
+	for i := 0; i < stt.NumFields(); i++ {
+		if stt.Field(i).Name() == m.Field {
+			muField = stt.Field(i)
+		}
+	}
+	if muField == nil {
+		return
+	}
+	l := &Loc{key: fieldKey(ownerT, muField), idx: []Term{ft.val(owner)}, typ: muField.Type()}
+	ft.keySort(l.key, arraySort("Int", ft.d.sortOf(muField.Type())))
+	lockT := ft.materialize(nil, l)
+	h := app("select", ft.get(ft.stateNow, heldKey(ft)), lockT)
+	var goal Term
+	if write {
+		goal = eq(h, "2")
+	} else {
+		goal = not(eq(h, "0"))
+	}
+	goal = or(app(">=", ft.val(fa.X), ft.get(ft.entry, "$next")), goal)
+	ft.oblige("guarded-by", pos, "", guard, goal, true)
 }
